@@ -55,6 +55,11 @@ def outcomes(P, q, gen):
             continue
         args, kwargs = r[0], r[1]
         opts = r[2] if len(r) > 2 else {}
+        if kwargs and fi.name.startswith('_'):
+            # keyword names of a private helper as they were when the scenarios were written -> as they are now (renamed parameters, same positions)
+            from .rules import renamed_params
+            back = dict((w, c) for c, w in renamed_params(fi).items())
+            kwargs = dict((back.get(k, k), v) for k, v in kwargs.items())
         out.append((label, run_scenario(P, fi, args, kwargs, **opts)))
     return out
 
